@@ -184,7 +184,10 @@ impl Scenario for C13Histories {
         let mut abstract_seq = String::new();
         cx.event(&format!("0: initial list {:?}, enabled operations {:?}", st.model.iter().map(|i| i.name.as_str()).collect::<Vec<_>>(), enabled));
         check(cx, &st, 0, "initial")?;
+        cx.tape.begin_group();
         for step in 1..=nops {
+            cx.tape.end_group();
+            cx.tape.begin_group();
             cx.evals += 1;
             let mut op = *cx.tape.pick(&enabled);
             // keep long lists populated: bias towards push when small
@@ -462,6 +465,7 @@ impl Scenario for C13Histories {
             cx.event(&format!("{step}: {desc}  -> len {}", st.model.len()));
             check(cx, &st, step, &desc)?;
         }
+        cx.tape.end_group();
         // owned into_iter at the end
         let model = std::mem::take(&mut st.model);
         let list = std::mem::take(&mut st.list);
